@@ -5,7 +5,7 @@ from __future__ import annotations
 import ast
 import re
 
-from ..cfg import build_cfg, calls_in
+from ..cfg import build_cfg, calls_in, node_calls
 from ..core import Ctx, property_info, rule, share
 from ..exc import MayRaise
 from ..model import AnalysisError, ClassInfo, FuncInfo, Module, dotted_name, norm_text, walk_no_nested
@@ -526,3 +526,26 @@ share("C05", "C05.R7", prefixes_resolved_never_matched)
 from .c03 import no_prefix_rebinding  # noqa: E402
 
 share("C05", "C05.R8", no_prefix_rebinding)  # a QName serialised with a prefix map must parse back with the same map: generated prefixes never rebind
+
+
+@rule("C05.R9")
+def token_lists_convert_item_by_item(ctx: Ctx) -> None:
+    """ConverterFactory.serialize renders a list of tokens by dispatching every item through the factory again (each item by its own type):
+    no converter chosen for one item is applied to the others."""
+    fi = ctx.repo.func(f"{CONV}:ConverterFactory.serialize")
+    g = build_cfg(fi.node)
+    lst = tests_raw(fi, "isinstance(value, list)", "isinstance(value, (list, tuple))", "isinstance(value, (tuple, list))", "collections.is_array(value)")
+    if not lst:
+        ctx.abstain("list branch of ConverterFactory.serialize", at=fi)
+        return
+    n = 0
+    for node in g.stmts():
+        if not any(g.only_if(node.id, t.id, True) for t in lst):
+            continue
+        for c in node_calls(node):
+            if isinstance(c.func, ast.Attribute) and c.func.attr == "serialize":
+                n += 1
+                ctx.ob("tokens are serialized through self.serialize(item) (the factory dispatches on each item's own type)", func_text(fi, c) in ("self.serialize", "cls.serialize"), at=fi, node=c,
+                       construct="token item dispatch", msg="a converter resolved from the first token is applied to all: [1, True] renders as '1 True', [2, Occurs.UNBOUNDED] as '2 Occurs.UNBOUNDED'")
+    if not n:
+        ctx.abstain("item conversion calls in the list branch of serialize", at=fi)
